@@ -76,6 +76,55 @@ impl Visitor for Rec {
     }
 }
 
+/// Audit of the component classes used by the C06/C07 template analyses (`Tpl.callsObjective`,
+/// `Tpl.eclass`): per executed leaf, how many objective calls it made, by how much the visible
+/// evaluation counter moved, whether any population changed (solutions / objective flags) and
+/// whether the best-so-far record changed.
+#[derive(Default)]
+struct Audit {
+    open: Vec<(String, u64, i64, u64, u64, Option<u64>)>,
+    steps: Vec<String>,
+}
+fn digest<P: HProblem>(state: &State<P>) -> (u64, u64) {
+    // (digest of all solutions in stack order, digest of solutions + objective bits)
+    let mut a: u64 = 0xcbf29ce484222325;
+    let mut b: u64 = 0x84222325cbf29ce4;
+    let mut mix = |h: &mut u64, s: &str| { for c in s.bytes() { *h ^= c as u64; *h = h.wrapping_mul(0x100000001b3); } };
+    if let Ok(p) = state.try_borrow::<Populations<P>>() {
+        for d in 0..p.len() {
+            mix(&mut a, "|"); mix(&mut b, "|");
+            for i in p.peek(d) {
+                let e = P::enc(i.solution());
+                mix(&mut a, &e); mix(&mut b, &e);
+                match i.get_objective() { Some(o) => mix(&mut b, &fx(mahf::SingleObjective::value(o))), None => mix(&mut b, "u") }
+            }
+        }
+    }
+    (a, b)
+}
+impl Visitor for Audit {
+    fn step<P: HProblem>(&mut self, phase: Phase, name: &'static str, _index: usize, state: &State<P>, p: &P) {
+        let n = short(name);
+        if n == "LoopPass" { return; }
+        let calls = p.probe().count();
+        let evals = state.try_get_value::<mahf::state::common::Evaluations>().map(|v| v as i64).unwrap_or(-1);
+        let (ds, df) = digest(state);
+        let best = state.best_objective_value().map(|o| o.value().to_bits());
+        match phase {
+            Phase::Before => self.open.push((n, calls, evals, ds, df, best)),
+            Phase::After => {
+                if let Some((bn, c0, e0, s0, f0, b0)) = self.open.pop() {
+                    if ["Block", "Loop", "Branch", "Scope"].contains(&bn.as_str()) { return; }
+                    if self.steps.len() < 500 {
+                        self.steps.push(format!("({} {} {} {} {} {})", bn, calls - c0, evals - e0, b(ds != s0), b(df != f0), b(best != b0)));
+                    }
+                }
+            }
+        }
+    }
+    fn done<P: HProblem>(&mut self, _o: &Outcome, _s: Option<&State<P>>, _p: &P) {}
+}
+
 struct Tree;
 impl ConfigUser for Tree {
     type Out = String;
@@ -86,7 +135,15 @@ impl ConfigUser for Tree {
 
 fn run_case(input: &Sx) -> String {
     // (run NAME variant instance iters seed (tree …)) — the tree is informational for the model
-    let (_, a) = input.head().unwrap();
+    let (head, a) = input.head().unwrap();
+    if head == "audit" {
+        let name = a[0].atom().unwrap();
+        let (variant, instance, iters, seed) = (a[1].nat().unwrap() as u32, a[2].nat().unwrap() as u32, a[3].nat().unwrap() as u32, a[4].nat().unwrap());
+        return match run_template(name, variant, instance, iters, seed, EvalKind::Sequential, Audit::default()) {
+            Err(_) => "((res ctor-err) (steps))".to_string(),
+            Ok((au, outcome)) => list([format!("(res {})", outcome.tag()), tagged("steps", au.steps)]),
+        };
+    }
     let name = a[0].atom().unwrap();
     let (variant, instance, iters, seed) = (a[1].nat().unwrap() as u32, a[2].nat().unwrap() as u32, a[3].nat().unwrap() as u32, a[4].nat().unwrap());
     let r = run_template(name, variant, instance, iters, seed, EvalKind::Sequential, Rec::default());
@@ -131,6 +188,25 @@ fn main() {
                 }
             }
         }
+        return;
+    }
+    if std::env::args().any(|x| x == "--audit") {
+        // K-only stream for the C06/C07 template analyses
+        let mut rng = Sm::new(a.seed ^ 0xA0D17);
+        let reps = if a.thorough { 6 } else { 1 };
+        for name in TEMPLATES {
+            for v in 0..N_VARIANTS {
+                for inst in 0..N_INSTANCES {
+                    for _ in 0..reps {
+                        let seed = rng.next() % 1_000_000;
+                        let input = format!("(audit {} {} {} {} {})", name, v, inst, if a.thorough { 6 } else { 3 }, seed);
+                        let sx = Sx::parse(&input).unwrap();
+                        out.case(&format!("audit:{}", name), &input, &run_case(&sx));
+                    }
+                }
+            }
+        }
+        out.finish();
         return;
     }
     let mut rng = Sm::new(a.seed);
